@@ -124,6 +124,11 @@ def observe(H, w):
             "warn": w, "vars": sorted(C.enc(v) for v in H.variables)}
 
 
+def twin_ok(case):
+    # also run under the second label decoding (common.twin_labels); Matrix kinds index by int
+    return C.no_matrix(case)
+
+
 def run_impl(case):
     import qubovert as qv
     H = qv.PCBO({k: C.num(v) for k, v in G.unjraw(case["obj"])})
